@@ -164,14 +164,14 @@ End Whole.
 (* ALL sizes, conditional: a PAG with the invariants [pag_hyps] whose circle component admits, at every round of the model's
    run, a v-structure-free consistent extension *)
 Theorem p2m_shape_all_sizes g :
-  pag_hyps g -> vext (temp_cpdag g) -> rounds_extendable (length (U (temp_cpdag g))) (temp_cpdag g) ->
+  pag_hyps g -> rounds_extendable (length (U (temp_cpdag g))) (temp_cpdag g) ->
   let m := pag_to_mag_model g in
   acyclic m /\
   (forall a b, has_b m a b = true -> dpath m a b -> False) /\
   (forall a c b, arrow_at m a c = true -> arrow_at m b c = true -> a <> b -> adjacent m a b = false ->
                  arrow_at g a c = true /\ arrow_at g b c = true).
 Proof.
-  intros HP Hx Hr. destruct (p2m_component_ok g Hx Hr) as (_ & Hac & Hvf).
+  intros HP Hr. destruct (p2m_component_ok g (vext_temp g Hr) Hr) as (_ & Hac & Hvf).
   split; [apply whole_acyclic; assumption|]. split.
   - intros a b. apply whole_no_adc; assumption.
   - intros a c b. apply whole_colliders; assumption.
